@@ -10,11 +10,12 @@ import (
 	"fmt"
 	"go/token"
 	"go/types"
+	"golang.org/x/tools/go/ssa"
 	"reflect"
 	"strings"
 )
 
-const jsonLaw = "encoding/json: Unmarshal into a struct sets exactly the fields whose JSON key is present to a value that is a function of (document, key, field type), leaves the others, and fails or succeeds as a function of (document, target type); custom UnmarshalJSON methods are covered by the same law; decoded maps and slices are containers allocated by the decoder (no caller-visible object is written), nested maps are nil or pairwise distinct"
+const jsonLaw = "encoding/json: Unmarshal into a struct sets exactly the fields whose JSON key is present to a value that is a function of (document, key, field type), leaves the others, and fails or succeeds as a function of (document, target type); custom UnmarshalJSON methods are covered by the same law; decoded maps and slices are containers allocated by the decoder (no caller-visible object is written), nested maps are nil or pairwise distinct; a document that decodes successfully is lexically well-formed JSON (lexOK)"
 
 // jsonKey returns the JSON key of a struct field ("" = skipped).
 func jsonKey(f *types.Var, tag string) (string, bool) {
@@ -137,6 +138,7 @@ func (x *Exec) jsonUnmarshal(fr *Frame, st *State, args []*Value, resT types.Typ
 		return x.freshResult(st, resT, "json_err")
 	}
 	d := x.bytesToStr(st, data)
+	x.jsonLexFact(st, d, resT)
 	ptr := target.Boxed
 	t := derefType(ptr)
 	x.safetyOblige(fr, st, "nil", "json.Unmarshal into nil pointer", Neq(ptrBase(ptr.P, x), x.null()), pos)
@@ -160,6 +162,7 @@ func (x *Exec) jsonUnmarshal(fr *Frame, st *State, args []*Value, resT types.Typ
 				x.store(st, ptr.P, &Value{K: KPtr, T: t, P: np})
 				errV := x.freshValue("json_err", resT, st.guard)
 				x.assume(st, Eq(Eq(errV.Tag, IntLit(0)), ok))
+				x.assume(st, Implies(ok, x.ctx.App("jvalid", BoolSort, d)))
 				return errV
 			}
 		}
@@ -175,6 +178,7 @@ func (x *Exec) jsonUnmarshal(fr *Frame, st *State, args []*Value, resT types.Typ
 	x.jsonContainerFacts(st, junk) // what a failed decode leaves behind was allocated by the decoder as well
 	errV := x.freshValue("json_err", resT, st.guard)
 	x.assume(st, Eq(Eq(errV.Tag, IntLit(0)), ok))
+	x.assume(st, Implies(ok, x.ctx.App("jvalid", BoolSort, d)))
 	return errV
 }
 
@@ -293,3 +297,73 @@ func (env *SpecEnv) specJSON(name string, args []*Expr) *Value {
 }
 
 var _ = fmt.Sprintf
+
+// jsonLexFact: a document json.Unmarshal accepts has the lexical shape `lexOK` (when the
+// specification vocabulary defines it): part of the assumed decoding law. The fact is recorded
+// as lexOK(d) guarded by "some decode of d succeeded" through the uninterpreted jvalid(d).
+func (x *Exec) jsonLexFact(st *State, d *Term, resT types.Type) {
+	if _, ok := x.db.Funs["lexOK"]; !ok {
+		return
+	}
+	if !x.rootNeedsLex() {
+		return // keep the extra quantified fact out of proofs that have no use for it
+	}
+	env := &SpecEnv{x: x, vars: map[string]*Value{"d$": scalar(tStr, d)}, cur: st, old: st}
+	var t *Term
+	func() {
+		defer func() {
+			if r := recover(); r != nil {
+				if _, isSpec := r.(specErr); !isSpec {
+					panic(r)
+				}
+			}
+		}()
+		t = env.evalBool(&Expr{Op: "call", Args: []*Expr{{Op: "ident", Name: "lexOK"}, {Op: "ident", Name: "d$"}}})
+	}()
+	if t != nil {
+		x.facts = append(x.facts, Implies(x.ctx.App("jvalid", BoolSort, d), t))
+	}
+}
+
+// rootNeedsLex: the function under verification, or a function it calls directly, has a contract
+// that speaks about lexOK.
+func (x *Exec) rootNeedsLex() bool {
+	if x.rootFrame == nil {
+		return false
+	}
+	if x.needsLex != 0 {
+		return x.needsLex > 0
+	}
+	x.needsLex = -1
+	mentions := func(c *Contract) bool {
+		if c == nil {
+			return false
+		}
+		for _, cl := range c.Requires {
+			if strings.Contains(cl.Src, "lexOK") {
+				return true
+			}
+		}
+		for _, cl := range c.Ensures {
+			if strings.Contains(cl.Src, "lexOK") {
+				return true
+			}
+		}
+		return false
+	}
+	if mentions(x.rootFrame.contract) {
+		x.needsLex = 1
+		return true
+	}
+	for _, b := range x.rootFrame.fn.Blocks {
+		for _, in := range b.Instrs {
+			if call, ok := in.(ssa.CallInstruction); ok {
+				if f, ok := call.Common().Value.(*ssa.Function); ok && mentions(x.contractFor(f)) {
+					x.needsLex = 1
+					return true
+				}
+			}
+		}
+	}
+	return false
+}
